@@ -373,3 +373,65 @@ func (p *Program) FuncsInFiles(pat string) []string {
 	sort.Strings(out)
 	return out
 }
+
+// VerifyLemmas turns each stand-alone lemma tagged with prop into an obligation.
+func (p *Program) VerifyLemmas(prop string) []*Obligation {
+	var out []*Obligation
+	for _, lm := range p.DB.Lemmas {
+		has := false
+		for _, q := range lm.Props {
+			if q == prop {
+				has = true
+			}
+		}
+		if !has {
+			continue
+		}
+		out = append(out, p.VerifyLemma(lm)...)
+	}
+	return out
+}
+
+func (p *Program) VerifyLemma(lm *Lemma) (obs []*Obligation) {
+	fm := FloatIEEE
+	if lm.Mode == "real" {
+		fm = FloatReal
+	}
+	s := NewScript()
+	x := &Exec{prog: p.Prog, db: p.DB, S: s, te: NewTypeEnv(s, fm), rootKey: lm.Pkg + "/lemma/" + lm.Name,
+		entryHeaps: map[string]string{}, heapTypes: map[string]types.Type{}, ghostSorts: map[string]string{},
+		loopCache: map[*ssa.Function]*loopInfo{}, fset: p.Fset, MaxInline: 8}
+	x.writeCache = map[*ssa.Function]*writeSet{}
+	x.inlined = map[string]bool{}
+	x.opaque = map[string]bool{}
+	x.usedContracts = map[string]bool{}
+	x.modelsUsed = map[string]bool{}
+	x.contract = &Contract{Key: x.rootKey, Props: lm.Props}
+	st := &State{cells: map[cellKey]Val{}, heaps: map[string]string{}, ghost: map[string]string{}, pc: "true"}
+	st.nr = x.S.Const("nr", "Int")
+	x.assume(st, "(>= "+st.nr+" 1)")
+	x.entry = st
+	x.rf = x.S.Const("rf", "Int")
+	var pkg *types.Package
+	if sp := p.Pkgs[lm.Pkg]; sp != nil {
+		pkg = sp.Pkg
+	}
+	defer func() {
+		if r := recover(); r != nil {
+			msg := fmt.Sprint(r)
+			switch e := r.(type) {
+			case unsupported:
+				msg = e.msg
+			case specFail:
+				msg = e.msg
+			}
+			// an untranslatable lemma is an obligation that cannot be discharged
+			obs = []*Obligation{{Name: x.rootKey, Kind: "lemma", Func: x.rootKey, Site: x.rootKey, Props: lm.Props,
+				Script: "(declare-const untranslatable Bool)\n(assert untranslatable)\n(check-sat)\n", Descr: "lemma cannot be translated: " + msg}}
+		}
+	}()
+	sc := &SpecCtx{x: x, st: st, old: st, vars: map[string]Val{}, pkg: pkg}
+	g := sc.Bool(lm.Body)
+	x.emit(st, x.rootKey, "lemma", x.rootKey, token.NoPos, g, "lemma: "+lm.Src)
+	return x.obls
+}
